@@ -6,6 +6,7 @@ import (
 	"errors"
 	"fmt"
 	"io"
+	"math"
 	"net/http"
 	"strconv"
 	"strings"
@@ -106,9 +107,17 @@ func lookupWellKnown(ctx context.Context, serverNameType spec.ServerName, dial d
 				// be assumed to live
 				stringValue := pieces[1]
 				age, err := strconv.ParseInt(stringValue, 10, 64)
+				if numErr, ok := err.(*strconv.NumError); ok && numErr.Err == strconv.ErrRange && !strings.HasPrefix(stringValue, "-") {
+					// more seconds than fit: as long as can be expressed
+					age, err = math.MaxInt64, nil
+				}
 
 				if err == nil {
 					expiryTimestamp = age + time.Now().Unix()
+					if age > 0 && expiryTimestamp < age {
+						// the sum overflowed
+						expiryTimestamp = math.MaxInt64
+					}
 				}
 			}
 		}
